@@ -93,6 +93,11 @@ class MultiCrossBlockRepeat(Block):
 
         from sweetpea._internal.constraint import Cross, Consistency, Sustain
         from sweetpea._internal.derivation_processor import DerivationProcessor
+        # A constraint that has not been tied to a block yet records this block's
+        # geometry below; work on a copy, so that a constraint object given to
+        # several blocks does not keep the geometry of the first one
+        constraints = [copy.copy(ct) if getattr(ct, 'within_block', True) is None else ct
+                       for ct in constraints]
         self.orig_design = design
         self.orig_crossings = crossings
         self.orig_constraints = constraints
